@@ -128,8 +128,11 @@ class Engine(object):
         self.scp = rig_module("rig.machine_control.scp_connection")
         self.conn = self.scp.SCPConnection("spinn", n_tries=self.n_tries,
                                            timeout=self.timeout)
-        for _ in range(self.pre_advance):
-            next(self.conn.seq)
+        try:
+            for _ in range(self.pre_advance):
+                next(self.conn.seq)
+        except (AttributeError, TypeError):
+            self.pre_advance = 0      # generator not reachable: start at 0
         w.ops.append("config n_tries=%d timeout=%g window=%d buffer=%d "
                      "pre_advance=%#x faults=%s jitter=%g"
                      % (self.n_tries, self.timeout, self.window,
